@@ -34,7 +34,7 @@ RULE = ("cases: recipes over generated CSV files (0-7 records, 1-4 columns, quot
         "consumers inside / below a for_each; update mode with pass-through fields; 1-2 iterations; a malformed stream "
         "(line longer than the header, rejected update recipes, missing columns; long lines oracle-only).  The rows "
         "written (per template: for_each record, child_index, consumed records per call site, projected "
-        "columns) and the outcome are compared with the Coq model; at most one shuffled use per case, its passes replayed in the model. "
+        "columns) and the outcome are compared with the Coq model; shuffled passes (any number of shuffled uses, also interleaved consumers of one file) are read back per use and replayed in the model; datasets of 499/500/501/1000/1300 records consumed for a full cycle. "
         "non-trivial: some dataset with >= 2 records is drawn from at least twice (wrap-around, cycle, "
         "for_each) or is over-consumed; distinct by case hash")
 TRUSTED = ["harness/oracle_random.py: random.Random._randbelow patched so that runs are reproducible from the case",
@@ -53,6 +53,7 @@ EXHAUSTIVE = {"quick": False, "thorough": True}
 
 NAMES = ["a", "b", "c", "d", "City", "Zip_Code", "k1", "Name", "X", "oid"]
 _ROWS = []
+_CAP = [1500]
 
 
 # ---------------------------------------------------------------- capture stream (worker side)
@@ -71,7 +72,7 @@ def __getattr__(name):
                 pass
 
             def write_row(self, tablename, row):
-                if len(_ROWS) > 1500:          # a loop that no longer ends (no recipe here writes > 700 rows)
+                if len(_ROWS) > _CAP[0]:       # a loop that no longer ends
                     raise _TooManyRows()
                 _ROWS.append((tablename, dict(row)))
 
@@ -276,9 +277,8 @@ def gen_consumer_case(rng, n=None, m=None, mode=None, repeat="?", src=None, plac
                      friends=[] if as_nested else [cons])
         recipe = [tmpl(3, ["count", rng.randint(1, 2)], friends=[inner])]
     elif placement == "two_sites":
-        # at most one shuffled use per case: its passes are read back from the rows (infer_draws)
-        m2 = "iterate" if mode == "shuffle" else rng.choice(["iterate", "shuffle"])
-        u2 = use("d0", rng.choice(["csv", "sql"]), m2, rng.choice([None, False]))
+        # two call sites over the same file in one row (each one's passes are read back from its own values)
+        u2 = use("d0", rng.choice(["csv", "sql"]), rng.choice(["iterate", "shuffle"]), rng.choice([None, False]))
         cons["sites"].append([2, u2])
         recipe = [cons]
     else:
@@ -382,6 +382,87 @@ def gen_update_case(rng, n=None):
             "raw": [rng.randint(0, 10 ** 6) for _ in range(20)]}
 
 
+def _raw(rng, k=40):
+    return [rng.randint(0, 10 ** 6) for _ in range(k)]
+
+
+def gen_interleaved_case(rng, n=None):
+    """two or more shuffled consumers of the SAME file whose passes interleave row by row: each consumer must
+    still see every record exactly once per cycle (a pass must not be disturbed by another consumer's restart)"""
+    n = rng.randint(3, 7) if n is None else n
+    ds = gen_dataset(rng, n, ncols=rng.choice([1, 2, 3]), distinct=True)
+    src2 = rng.choice(["csv", "csv", "csv", "sql"])
+    rep = lambda: rng.choice([None, None, True])
+    ua = lambda: use("d0", "csv", "shuffle", rep())
+    ub = lambda: use("d0", src2, "shuffle", rep())
+    shape = rng.choice(["two_top", "parent_friend", "nested_and_friend", "foreach_friend", "foreach_foreach",
+                        "two_sites_row", "foreach_own_site"])
+    iters = 1
+    if shape == "two_top":
+        recipe = [tmpl(1, ["count", rng.randint(1, 2)], sites=[[1, ua()]]),
+                  tmpl(2, ["count", rng.randint(1, 3)], sites=[[2, ub()]])]
+        iters = rng.randint(n, 2 * n + 2)
+    elif shape == "parent_friend":
+        recipe = [tmpl(1, ["count", rng.randint(n + 1, 2 * n + 2)], sites=[[1, ua()]],
+                       friends=[tmpl(2, ["count", rng.randint(1, 2)], sites=[[2, ub()]])])]
+    elif shape == "nested_and_friend":
+        recipe = [tmpl(3, ["count", rng.randint(n + 1, 2 * n + 2)],
+                       nested=[tmpl(1, ["count", rng.randint(1, 2)], sites=[[1, ua()]])],
+                       friends=[tmpl(2, ["default"], sites=[[2, ub()]])])]
+    elif shape == "foreach_friend":
+        recipe = [tmpl(1, ["foreach", ua()],
+                       friends=[tmpl(2, ["count", rng.randint(1, 2)], sites=[[2, ub()]])])]
+        iters = rng.randint(2, 3)
+    elif shape == "foreach_foreach":
+        inner = tmpl(2, ["foreach", ub()])
+        recipe = [tmpl(1, ["foreach", ua()], friends=[inner] if rng.random() < 0.6 else [], nested=[])]
+        if not recipe[0]["friends"]:
+            recipe[0]["nested"] = [inner]
+        iters = rng.randint(1, 2)
+    elif shape == "two_sites_row":
+        recipe = [tmpl(1, ["count", rng.randint(n + 1, 2 * n + 2)], sites=[[1, ua()], [2, ub()]])]
+        iters = rng.randint(1, 2)
+    else:
+        recipe = [tmpl(1, ["foreach", ua()], sites=[[2, ub()]])]
+        iters = rng.randint(2, 3)
+    return {"kind": "run", "datasets": {"d0": ds}, "recipe": recipe, "iters": iters, "tick": True, "raw": _raw(rng)}
+
+
+BIG_SIZES = [499, 500, 501, 1000, 1300]
+
+
+def gen_big_case(rng, n, src="sql", mode="shuffle", shape="site", cycles=1):
+    """a dataset around / beyond 500 records (a page, a fetch buffer), consumed for at least one full cycle"""
+    ds = gen_dataset(rng, n, ncols=1, plain=True)
+    u = use("d0", src, mode, rng.choice([None, True]) if cycles > 1 or shape == "site" else None, table=rng.random() < 0.5)
+    if shape == "site":
+        m = cycles * n + rng.randint(0, 9)
+        recipe = [tmpl(1, ["count", m], sites=[[1, u]])]
+    else:
+        recipe = [tmpl(1, ["foreach", u])]
+    return {"kind": "run", "datasets": {"d0": ds}, "recipe": recipe, "iters": 1, "tick": False,
+            "raw": _raw(rng), "cap": 3 * n + 500}
+
+
+def big_cases(rng, tier):
+    out = []
+    if tier == "quick":
+        for n in BIG_SIZES:
+            out.append(gen_big_case(rng, n, "sql", "shuffle", "site", cycles=1))
+        out.append(gen_big_case(rng, 501, "sql", "shuffle", "foreach"))
+        out.append(gen_big_case(rng, 1300, "sql", "shuffle", "foreach"))
+        out.append(gen_big_case(rng, 1000, "csv", "shuffle", "site"))
+        out.append(gen_big_case(rng, 501, "sql", "iterate", "site"))
+        out.append(gen_big_case(rng, 1300, "sql", "iterate", "foreach"))
+        return out
+    for n in BIG_SIZES:
+        for src in ("sql", "csv"):
+            for mode in ("shuffle", "iterate"):
+                out.append(gen_big_case(rng, n, src, mode, "site", cycles=2 if n <= 501 else 1))
+                out.append(gen_big_case(rng, n, src, mode, "foreach"))
+    return out
+
+
 def gen_long_case(rng):
     """malformed stream: one line has more cells than the header.  The linear iterator reports it as a
     DataGenError when it reaches that line, the shuffled one when it loads the file.  Outside the model
@@ -448,6 +529,9 @@ def generate(rng, tier):
         cases.append(gen_update_case(rng))
     for _ in range(12 * k):
         cases.append(gen_long_case(rng))
+    for _ in range(50 * k):
+        cases.append(gen_interleaved_case(rng))
+    cases.extend(big_cases(rng, tier))
     if tier == "thorough":
         cases.extend(exhaustive_cases(rng))
     return cases
@@ -558,6 +642,7 @@ def _run(case, root):
     elif case.get("tick"):
         kw["target_number"] = ("Tick", case["iters"])
     del _ROWS[:]
+    _CAP[0] = case.get("cap", 1500)
     out = {}
     raw = case["raw"] or [0]
     with injected_randbelow(chooser=lambda n, idx: raw[idx % len(raw)] % n) as rec:   # reproducible, never runs dry
@@ -679,52 +764,65 @@ def c_row(r):
 
 def fy_draws(n, prefix):
     """Fisher-Yates draws (random.shuffle, Python 3.12) that make list(range(n)) start with `prefix`"""
-    rest = [i for i in range(n) if i not in prefix]
-    target = list(prefix) + rest
+    seen = set(prefix)
+    target = list(prefix) + [i for i in range(n) if i not in seen]
     x = list(range(n))
+    pos = list(range(n))            # pos[v] = index of v in x
     draws = []
     for i in reversed(range(1, n)):
-        j = x.index(target[i])
+        j = pos[target[i]]
         draws.append(j)
-        x[i], x[j] = x[j], x[i]
+        a, b2 = x[i], x[j]
+        x[i], x[j] = b2, a
+        pos[b2], pos[a] = i, j
     assert x == target
     return draws
 
 
 def infer_draws(case, rows):
-    """The permutation of every pass of the (single) shuffled use is read back from the rows and turned into
-    the Fisher-Yates draws that produce it: SQLite's ORDER BY random() cannot be injected, and for CSV files
-    this keeps the comparison independent of how the code obtains its permutation (random.shuffle today)."""
-    uses = [(k, t, sid, u, rc) for k, t, sid, u, rc in all_uses(case) if u["mode"] == "shuffle"]
+    """The permutation of every pass of every shuffled use is read back from that use's own rows and turned
+    into the Fisher-Yates draws that produce it; the passes are put in the order in which the recipe starts
+    them (spec_run).  SQLite's ORDER BY random() cannot be injected, and for CSV files this keeps the
+    comparison independent of how the code obtains its permutation (random.shuffle today)."""
+    uses = {}
+    for kind, t, sid, u, _b in all_uses(case):
+        if u["mode"] == "shuffle":
+            uses[("fe", t["tid"]) if kind == "foreach" else ("site", sid)] = (t, sid, u)
     if not uses:
         return []
-    if len(uses) > 1:
-        return "mixed"
-    kind, t, sid, u, rc = uses[0]
-    data = data_of(case, u)
-    n = len(data)
-    trows = [r for r in rows if r["tid"] == t["tid"]]
-    groups = []
-    if kind == "foreach":
-        for r in trows:
-            if r["ci"] == 0 or not groups:
-                groups.append([])
-            groups[-1].append(r["fe"])
-    else:
-        vals = [dict(r["cons"]).get(sid) for r in trows]
-        groups = [vals[i:i + n] for i in range(0, len(vals), max(n, 1))]
+    groups = {}
+    for key, (t, sid, u) in uses.items():
+        n = len(data_of(case, u))
+        trows = [r for r in rows if r["tid"] == t["tid"]]
+        g = []
+        if key[0] == "fe":
+            for r in trows:
+                if r["ci"] == 0 or not g:
+                    g.append([])
+                g[-1].append(r["fe"])
+        else:
+            vals = [dict(r["cons"]).get(sid) for r in trows]
+            g = [vals[i:i + n] for i in range(0, len(vals), max(n, 1))]
+        groups[key] = g
     draws = []
-    for g in groups:
-        free = list(range(n))
+    maxn = 1
+    for key, j in spec_run(case)[2]:
+        t, sid, u = uses[key]
+        data = data_of(case, u)
+        n = len(data)
+        maxn = max(maxn, n)
+        where = {}
+        for i, d in enumerate(data):
+            where.setdefault(tuple(d), []).append(i)
+        where = {k: list(reversed(v)) for k, v in where.items()}
         prefix = []
-        for v in g:
-            hit = next((i for i in free if data[i] == v), None)
-            if hit is None:
+        for v in (groups[key][j] if j < len(groups[key]) else []):
+            lst = where.get(tuple(v))
+            if not lst:
                 return "noperm"
-            free.remove(hit)
-            prefix.append(hit)
+            prefix.append(lst.pop())
         draws += fy_draws(n, prefix)
-    return draws + [0] * (3 * max(n, 1))
+    return draws + [0] * (3 * maxn)
 
 
 def coq_case(case, obs):
@@ -740,8 +838,6 @@ def coq_case(case, obs):
     if err not in (None, "DGE"):
         return None                 # a crash / runaway loop: reported by the oracle, the model only knows DGE
     orc = infer_draws(case, rows)
-    if orc == "mixed":
-        return None
     if orc == "noperm":
         orc = [0] * 64              # the oracle reports it; the model will disagree as well
     top, _ = effective_top(case)
@@ -762,20 +858,29 @@ class _SpecStop(Exception):
     pass
 
 
-def spec_counts(case):
-    """What the property prescribes: rows per template and whether the run must end in an error.
+def spec_run(case):
+    """What the property prescribes: rows per template, whether the run must end in an error, and the order
+    in which the shuffled uses start their passes (("site", sid) / ("fe", tid), pass number).
     Every call site hands out record k mod n on its k-th use; repeat: False sites fail on use n+1;
     an empty dataset fails on the first use; for_each expands once per record."""
     top, why = effective_top(case)
     counts = Counter()
+    events = []
     if top is None:
-        return counts, True
+        return counts, True, events
     used = Counter()
+    passes = Counter()
+
+    def start(key, u):
+        if u["mode"] == "shuffle":
+            events.append((key, passes[key]))
+            passes[key] += 1
 
     def gen(t):
         loop = t["loop"]
         fe_bad = None
         if loop[0] == "foreach":
+            start(("fe", t["tid"]), loop[1])
             reps = len(data_of(case, loop[1]))
             fe_bad = case["datasets"][loop[1]["ds"]].get("long")
             if fe_bad is not None and loop[1]["mode"] == "shuffle":
@@ -787,10 +892,13 @@ def spec_counts(case):
                 raise _SpecStop()
             for sid, u in t["sites"]:
                 n = len(data_of(case, u))
-                if n == 0 or (u["repeat"] is False and used[sid] >= n):
+                k = used[sid]
+                if k == 0 or (n > 0 and k % n == 0 and u["repeat"] is not False):
+                    start(("site", sid), u)          # created at its first use, restarted after every n
+                if n == 0 or (u["repeat"] is False and k >= n):
                     raise _SpecStop()
                 bad = case["datasets"][u["ds"]].get("long")
-                if bad is not None and (u["mode"] == "shuffle" or used[sid] % n == bad):
+                if bad is not None and (u["mode"] == "shuffle" or k % n == bad):
                     raise _SpecStop()
                 used[sid] += 1
             for ch in t["nested"]:
@@ -808,8 +916,13 @@ def spec_counts(case):
             for t in top:
                 gen(t)
     except _SpecStop:
-        return counts, True
-    return counts, False
+        return counts, True, events
+    return counts, False, events
+
+
+def spec_counts(case):
+    counts, must_fail, _ = spec_run(case)
+    return counts, must_fail
 
 
 def _render(c):
@@ -936,7 +1049,8 @@ def stats(cases, obss):
         if isinstance(o, dict):
             outcomes[o.get("err", "ok") if "rows" in o else "harness"] += 1
         for ds in c["datasets"].values():
-            sizes[len(ds["rows"])] += 1
+            nrec = len(ds["rows"])
+            sizes[nrec if nrec <= 7 else ">=499"] += 1
             feats["bom"] += bool(ds.get("bom"))
             feats["crlf"] += "\r\n" in ds["text"]
             feats["quoted"] += '"' in ds["text"]
@@ -955,12 +1069,14 @@ def stats(cases, obss):
                 draws["m=0" if m == 0 else "m<n" if m < n else "m=n" if m == n else "m=n+1" if m == n + 1
                       else "m multiple of n" if n and m % n == 0 else "m>n"] += 1
         feats["two_iterations"] += c.get("iters", 1) > 1
+        nsh = sum(1 for _k, _t, _s, u, _b in all_uses(c) if u["mode"] == "shuffle")
+        feats["shuffled_uses>=2 (interleaved)"] += nsh >= 2
         feats["nested_objects"] += any(t["nested"] for t, _ in walk(c["recipe"]))
         feats["friends"] += any(t["friends"] for t, _ in walk(c["recipe"]))
         feats["nickname"] += any(t.get("nick") for t, _ in walk(c["recipe"]))
         if c["kind"] == "update":
             feats["update_passthrough"] += bool(c["passthrough"])
-    return {"kinds": dict(kinds), "dataset_sizes": {str(k): v for k, v in sorted(sizes.items())},
+    return {"kinds": dict(kinds), "dataset_sizes": {str(k): v for k, v in sorted(sizes.items(), key=lambda kv: str(kv[0]))},
             "uses": dict(modes), "sources": dict(srcs), "repeat_kw": dict(reps), "outcomes": dict(outcomes),
             "placement": dict(place), "count_vs_size": dict(draws), "features": dict(feats)}
 
@@ -1018,6 +1134,8 @@ def directed_search(rng, disagreeing):
             for src in ("csv", "sql"):
                 out.append(gen_foreach_case(rng, n=n, mode=mode, src=src))
         out.append(gen_update_case(rng, n=n))
+    out.extend(gen_interleaved_case(rng) for _ in range(200))
+    out.extend(big_cases(rng, "quick"))
     out.extend(gen_consumer_case(rng) for _ in range(600))
     out.extend(gen_foreach_case(rng) for _ in range(300))
     out.extend(gen_update_case(rng) for _ in range(200))
